@@ -321,6 +321,21 @@ def _perform(target, step, obs):
         raise EXC[step['exc']]('mid')
     elif do == 'intr':
         raise Interrupt()
+    elif do == 'thr':
+        sub = []
+
+        def tmain():
+            RT.tls.target = target
+            try:
+                for s in step['steps']:
+                    _perform(target, s, sub)
+            except BaseException as e:  # noqa
+                sub.append(['thread-died', type(e).__name__])
+        t = threading.Thread(target=tmain, name='mc-worker')
+        t.start()
+        t.join()
+        if obs is not None:
+            obs.extend(sub)
     elif do == 'par':
         outs = [[] for _ in step['threads']]
 
@@ -378,7 +393,10 @@ def _interp(target, prog):
         _perform(target, step, obs)
     end = prog.get('end', 'ret')
     if end == 'ret':
-        return obs
+        # the result depends on every value received, but shares no object with them: jsonpickle 0.9.3 on this Python
+        # mis-numbers py/id references that follow an object encoded through py/state (third-party, outside the faithful domain)
+        import copy
+        return copy.deepcopy(obs)
     if end == 'intr':
         raise Interrupt()
     raise EXC[end.split(':')[1]]('end')
@@ -392,6 +410,7 @@ def make_spy(inner, save_raises=False):
         def __init__(self):
             self.inner = inner
             self.log = []
+            self.saved_objs = {}
             self.save_raises = save_raises
 
         def create_new_recording(self, category):
@@ -401,6 +420,7 @@ def make_spy(inner, save_raises=False):
 
         def save_recording(self, recording):
             self.log.append(('save', recording.id))
+            self.saved_objs[recording.id] = recording
             if self.save_raises:
                 raise IOError('storage fails by design')
             return self.inner.save_recording(recording)
@@ -602,6 +622,9 @@ def ref(prog, enabled=True, draw=None, save_raises=False, funcs=None):
         elif do == 'val':
             if obs is not None:
                 obs.append(('ret', canon(mkval(step['v']))))
+        elif do == 'thr':  # a joined worker thread: its own (clear) interception flag, everything else shared
+            for s2 in step['steps']:
+                act(s2, obs, False)
         elif do == 'raise':
             raise _RefExc(step['exc'])
         elif do == 'intr':
@@ -780,6 +803,9 @@ def ref_replay(R, prog2, funcs=None):
                 call(s)
             elif do == 'val':
                 obs.append(('ret', canon(mkval(s['v']))))
+            elif do == 'thr':
+                for s2 in s['steps']:
+                    call(s2)
             elif do == 'raise':
                 raise _RefExc(s['exc'])
             elif do == 'intr':
@@ -856,3 +882,14 @@ def all_aliases(funcs=None):
     fs = dict(DEFAULT_FUNCS)
     fs.update(funcs or {})
     return [s['alias'] for s in fs.values() if s['t'] == 'out'] + [OP_ALIAS]
+
+
+def faithful(recording):
+    """Is this recording's content inside the pinned serializer's faithful domain? (decode(encode(x)) == x, measured on the
+    third-party library alone - never on the code under test)."""
+    import jsonpickle
+    data = {'d': dict(getattr(recording, 'recording_data', {})), 'm': dict(getattr(recording, 'recording_metadata', {}))}
+    try:
+        return canon(jsonpickle.decode(jsonpickle.encode(data, unpicklable=True))) == canon(data)
+    except Exception:
+        return False
